@@ -56,7 +56,17 @@ def main():
     patch = os.path.join(a.dir, "patch.diff")
     demos = [f for f in glob.glob(os.path.join(a.dir, "*_test.go"))]
 
+    pydemos = sorted(glob.glob(os.path.join(a.dir, "demo*.py")))
+
     def run_demo():
+        if pydemos and not demos:
+            # Python demonstrations (conf/route_control.py): `python3 demo.py <tree>`, exit 0 = passes
+            rc_all, outs = 0, ""
+            for d in pydemos:
+                rc, out = sh([sys.executable, d, wt], a.dir, timeout=600)
+                rc_all |= rc
+                outs += out
+            return rc_all, outs[-1500:]
         if not demos:
             return None, "no demo"
         for d in demos:
